@@ -196,6 +196,68 @@ def run(chk, tier):
         pass
     chk.ok("R18.2", "paths examined", nspans)
     chk.floor("R18.2", "spans examined", nspans, 2500)
+    # ---------------- R18.6 nodes created INSIDE a parse function (member steps, argument lists, object entries, match cases)
+    chk.rule("R18.6", "every syntax node a parse function creates besides its result (member steps, argument lists, entries, cases) has a span that starts no later than the first and ends no "
+                      "earlier than the last sub-tree it contains, and an explicit (start, end) pair is in source order")
+    n_inner = 0
+    seen_inner = set()
+
+    def inner_nodes(a, top=True):
+        if isinstance(a, dict):
+            if a.get("adt") == "AstNode" and a.get("fields") and not top:
+                yield a
+            for k_ in ("fields", "tup", "seq", "args"):
+                for x_ in a.get(k_) or []:
+                    yield from inner_nodes(x_, False)
+            for k_ in ("box", "pj"):
+                if k_ in a:
+                    yield from inner_nodes(a[k_], False)
+    for m, paths in sorted(db["roots"].items()):
+        for p in paths:
+            a = p.get("ast")
+            if not isinstance(a, dict):
+                continue
+            posn = {}
+            for i_, tr in enumerate(p["trace"]):
+                if tr[0] == "parse":
+                    posn[("ast", tr[1])] = i_
+                elif tr[0] == "tok":
+                    posn[("tok", tr[1])] = i_
+
+            def where(leaf):
+                mm = re.match(r"^ast:(\d+)", leaf)
+                if mm:
+                    return posn.get(("ast", int(mm.group(1))))
+                mm = re.match(r"^(?:next|peek|location)#(\d+)", leaf)
+                if mm:
+                    return posn.get(("tok", int(mm.group(1))))
+                return None
+            for nd in inner_nodes(a):
+                rng, content = nd["fields"][0], nd["fields"][1:]
+                kids = [where(l_) for l_ in leaves({"seq": content}, []) if re.match(r"^ast:\d+$", l_)]
+                cover = [where(l_) for l_ in leaves(rng, [])]
+                if not kids or None in kids or not cover or None in cover:
+                    continue
+                n_inner += 1
+                kind = (content[0].get("adt") or "?") + ("::" + content[0].get("variant") if isinstance(content[0], dict) and content[0].get("variant") and content[0].get("variant") != content[0].get("adt") else "") if isinstance(content[0], dict) else "?"
+                key = "%s|%s" % (m, kind)
+                prob = None
+                if min(cover) > min(kids) or max(cover) < max(kids):
+                    prob = "its span is built from things consumed between positions %d..%d of the parse, but it contains sub-trees consumed at %d..%d: the span does not contain its children" % (min(cover), max(cover), min(kids), max(kids))
+                if isinstance(rng, dict) and rng.get("call") == "SourceRange::new" and len(rng.get("args", [])) == 2:
+                    a0, a1 = rng["args"]
+                    if isinstance(a0, dict) and isinstance(a1, dict) and a0.get("call") == "SourceRange::start" and a1.get("call") == "SourceRange::end":
+                        w0 = [where(l_) for l_ in leaves(a0, [])]
+                        w1 = [where(l_) for l_ in leaves(a1, [])]
+                        if w0 and w1 and None not in w0 and None not in w1 and min(w0) > max(w1):
+                            prob = "its span runs from the start of something parsed LATER to the end of something parsed EARLIER (reversed: the end lies before the start)"
+                if prob:
+                    if key not in seen_inner:
+                        seen_inner.add(key)
+                        chk.bad("R18.6", key, "%s creates a %s node: %s   [span: %s]" % (m, kind, prob, json.dumps(rng)[:160]), "rscel/src/compiler/compiler.rs (%s)" % m)
+                else:
+                    chk.ok("R18.6", key)
+    chk.floor("R18.6", "inner nodes with sub-trees examined", n_inner, 200)
 
     # ---------------- R18.4 scanner
     sc = F.body("rscel::compiler::string_scanner::StringScanner::<'l>::next")
